@@ -98,6 +98,9 @@ func (w *World) handleLiveness(s *MSess, r *Resp, what string) bool {
 	unknown := r.is4xx() && hasCode(w.errCodes(r), "BLOB_UPLOAD_UNKNOWN")
 	if mustGone {
 		w.sessRefused(s, r, what)
+		if s.open {
+			s.open, s.endedHow = false, "expiry"
+		}
 		return true
 	}
 	if unknown {
@@ -107,7 +110,7 @@ func (w *World) handleLiveness(s *MSess, r *Resp, what string) bool {
 		s.open, s.endedHow = false, "expiry/eviction"
 		return true
 	}
-	if !mustAlive && r.is5xx() {
+	if !mustAlive && r.is5xx() && !w.abortedReq {
 		// evicted or expired while the request was in flight
 		s.open, s.endedHow = false, "expiry/eviction in flight"
 		s.maybeGone = false
@@ -409,7 +412,10 @@ func (w *World) sessData(s *MSess, body []byte, final bool, declared string, o c
 		}
 		return r
 	}
-	if w.handleLiveness(s, r, what) {
+	w.abortedReq = o.abort
+	handled := w.handleLiveness(s, r, what)
+	w.abortedReq = false
+	if handled {
 		return r
 	}
 	mr := w.m.repo(s.repo)
@@ -432,6 +438,10 @@ func (w *World) sessData(s *MSess, body []byte, final bool, declared string, o c
 			}
 		}
 		s.lastUse = w.now()
+		// a client learns where the session stands by asking (this also checks that exactly the delivered prefix was kept)
+		if !final && offOK && stateOK {
+			w.sessStatus(s, "")
+		}
 		return r
 	}
 	if !offOK {
@@ -561,6 +571,13 @@ func (w *World) sessStatus(s *MSess, repoOverride string) *Resp {
 		}
 		return r
 	}
+	if s.tainted || w.faultOverlapped(r) {
+		s.tainted = true
+		if r.is4xx() {
+			s.open, s.endedHow = false, "disk fault"
+		}
+		return r
+	}
 	if w.handleLiveness(s, r, "GET") {
 		return r
 	}
@@ -599,6 +616,13 @@ func (w *World) sessCancel(s *MSess, repoOverride string) *Resp {
 	if foreign {
 		if !r.is4xx() {
 			w.x.viol([]string{"C08", "C16"}, "session.cross-repo", "DELETE", fmt.Sprintf("cancel of session of %s through repository %s answered %d", s.repo, repo, r.Code))
+		}
+		return r
+	}
+	if s.tainted || w.faultOverlapped(r) {
+		s.tainted = true
+		if r.is2xx() || r.is4xx() {
+			s.open, s.endedHow = false, "disk fault"
 		}
 		return r
 	}
